@@ -7,6 +7,7 @@
   do not appear in the conclusions).
 -/
 import Absnfs.ServerData
+import Absnfs.ServerData2
 import Absnfs.ServerCreate
 import Absnfs.ServerReadOnly
 import Gen.Facts
@@ -65,6 +66,18 @@ theorem bytes_after_truncate (d : Bytes) (n i : Nat) :
     (Fs.truncBytes d n).getD i 0 = if i < n then d.getD i 0 else 0 := Fs.truncBytes_getD d n i
 
 theorem size_after_truncate (d : Bytes) (n : Nat) : (Fs.truncBytes d n).length = n := Fs.truncBytes_length d n
+
+/-- SETATTR at handler level: an NFS3_OK reply to a SETATTR with an explicit size means the object the handle
+    names now holds its old bytes cut or zero-extended to that size, and no other object's contents changed —
+    whatever mode, owner and time fields the request also carried; a SETATTR without a size changes no contents. -/
+theorem setattr_size_truncates (s s' : St) (c : Ctx) (args : Bytes) (body : Rfc.Body)
+    (heq : procSetattr s c args = (s', .res ⟨0, body⟩)) :
+    ∃ (hd : Nat) (r1 r2 : Bytes) (sa : Sattr3) (n : Node), decFh' s args = some (hd, r1) ∧ decSattr3 r1 = some (sa, r2) ∧
+      nodeOf s hd = some n ∧
+      (sa.size = none → ∀ q, Fs.contentAt s'.fs q = Fs.contentAt s.fs q) ∧
+      (∀ sz, sa.size = some sz → ∃ q0 e0, Fs.follow s.fs (fsPath n.path) = (q0, .ok e0) ∧
+        ∀ q, Fs.contentAt s'.fs q = if q = q0 then some (e0.kind, Fs.truncBytes e0.data sz) else Fs.contentAt s.fs q) :=
+  procSetattr_content s s' c args body heq
 
 /-- CREATE over an existing file without an explicit size leaves its bytes alone (C03's theorem, restated for data) -/
 theorem create_keeps_data (s1 : St) (c : Ctx) (n : Node) (pre : Attrs) (p : Bytes) (info : Fs.Info) (how : Nat)
